@@ -23,7 +23,9 @@ from pypika_tortoise.terms import Index, SystemTimeValue, ValueWrapper
 PROPERTY = "C07"
 
 ALPHA = ["a", "A", '"', "`", "'", ".", " ", "[", "]", "é", "-", "{", "}"]
-EXTRA = ["select", "from", "order", "MiXed", "a b c", "x--y", "/*c*/", "%s", "$1", "?", "{type}", "{0}", "a{{b}}", "{join}", "%(x)s", "%d"]
+EXTRA = ["select", "from", "order", "MiXed", "a b c", "x--y", "/*c*/", "%s", "$1", "?", "{type}", "{0}", "a{{b}}", "{join}", "%(x)s", "%d",
+         # names that are attributes / methods of the library's own objects, and very short names
+         "alias", "star", "field", "update", "insert", "limit", "as_", "get_sql", "_table_name", "t1", "ab"]
 BENIGN = "zq1"
 QUOTE = {"generic": '"', "sqlite": '"', "postgresql": '"', "mssql": '"', "oracle": '"', "mysql": "`"}
 
@@ -66,6 +68,9 @@ SITES = {
     "column_where": lambda Q, N: Q.from_(T()).select("a").where(T().field(N) == 1),
     "column_group_order": lambda Q, N: Q.from_(T()).select(FN.Count("*")).groupby(T().field(N)).orderby(T().field(N)),
     "column_set": lambda Q, N: Q.update(T()).set(T().field(N), 1),
+    # columns reached by subscripting the row source
+    "column_subscript": lambda Q, N: Q.from_(T()).select(T()[N]).where(T()[N] == 1),
+    "column_subscript_subquery": lambda Q, N: (lambda sq: Q.from_(sq).select(sq[N]))(Q.from_(T()).select(T().field(N)).as_("sq")),
     # columns named by a string handed to the builder call itself
     "column_group_order_str": lambda Q, N: Q.from_(T()).select(FN.Count("*")).groupby(N).orderby(N) if N != "*" else None,
     "column_order_str_multi": lambda Q, N: Q.from_(T()).select("a").orderby("b", N, "c") if N != "*" else None,
@@ -126,6 +131,14 @@ SITES = {
     "insert_select_subquery_alias": lambda Q, N: (lambda s: Q.into(T()).columns("a").from_(s).select(s.x))(Q.from_(U()).select("x").as_(N)),
     "ddl_period_end": lambda Q, N: Q.create_table("t").columns("a9", N).period_for("p9", "a9", N),
     "ddl_period_end_col": lambda Q, N: Q.create_table("t").columns("a9", N).period_for("p9", Column("a9"), Column(N)),
+    # the two period columns given in different ways (a name and a Column object, either way round)
+    "ddl_period_end_mixed": lambda Q, N: Q.create_table("t").columns("a9", N).period_for("p9", "a9", Column(N)),
+    "ddl_period_start_mixed": lambda Q, N: Q.create_table("t").columns(N, "b9").period_for("p9", Column(N), "b9"),
+    "ddl_period_start_mixed2": lambda Q, N: Q.create_table("t").columns(N, "b9").period_for("p9", N, Column("b9")),
+    # CREATE TABLE .. AS SELECT: the SELECT is part of the statement (same class; another dialect's class)
+    "create_as_select": lambda Q, N: Q.create_table("n9").as_select(Q.from_(Table(N)).select(Table(N).field(N))),
+    "create_as_select_other_cls": lambda Q, N: Q.create_table("n9").as_select(
+        (fp.QCLS["generic"] if Q is fp.QCLS["mysql"] else fp.QCLS["mysql"]).from_(Table(N)).select(Table(N).field(N))),
     "ddl_period": lambda Q, N: Q.create_table("t").columns("a", "b").period_for(N, "a", "b"),
     "ddl_period_cols": lambda Q, N: Q.create_table("t").columns(N, "b").period_for("p", N, "b"),
     "setop_order_alias": lambda Q, N: Q.from_(T()).select(T().a.as_(N)).union(Q.from_(U()).select(U().a.as_(N))).orderby(T().a.as_(N)),
@@ -142,9 +155,11 @@ EXPECT_COUNTS = {"ddl_constraint_case": (3, 1), "ddl_constraint_case_late": (1, 
 # exact number of times the name must be emitted (absolute: the benign rendering is made by the same library)
 NAME_COUNT = {"table_factory": 1, "table_factory_second": 1, "table_factory_tuple": 3, "table_factory_single": 1, "const_alias": 2, "const_alias_ctor": 1,
               "table_alias_temporal": 3, "table_alias_temporal_join": 3, "table_from_str": 1, "table_into_str": 1, "table_update_str": 1, "table_join_str": 4,
-              "table_alias_star": 3, "table_alias_star_single": 2, "subquery_alias_star": 2, "ddl_period_end": 2, "ddl_period_end_col": 2,
+              "table_alias_star": 3, "table_alias_star_single": 2, "subquery_alias_star": 2, "ddl_period_end": 2, "ddl_period_end_col": 2, "ddl_period_end_mixed": 2, "ddl_period_start_mixed": 2, "ddl_period_start_mixed2": 2,
+              "create_as_select": 2, "create_as_select_other_cls": 2,
               "ddl_period_cols": 2, "ddl_period": 1, "table_alias": 3, "subquery_alias": 2, "ddl_column": 3}
-REQUIRED_MORE = {"ddl_period_end": ["a9", "p9"], "ddl_period_end_col": ["a9", "p9"], "ddl_period_cols": ["b", "p"]}
+REQUIRED_MORE = {"ddl_period_end_mixed": ["a9", "p9"], "ddl_period_start_mixed": ["b9", "p9"], "ddl_period_start_mixed2": ["b9", "p9"],
+                 "create_as_select": ["n9"], "create_as_select_other_cls": ["n9"], "ddl_period_end": ["a9", "p9"], "ddl_period_end_col": ["a9", "p9"], "ddl_period_cols": ["b", "p"]}
 
 
 class _StrSub(str):
